@@ -6,7 +6,7 @@ namespace sim {
 namespace {
 
 struct ResetRun : NodeEnv {
-    bool split = false; uint8_t defId = 1; std::vector<int> appTimers; std::vector<ObjSpec> base;
+    bool split = false; bool para = false; uint8_t defId = 1; std::vector<int> appTimers; std::vector<ObjSpec> base;
     std::vector<std::pair<uint8_t, uint16_t>> emcyTbl = {{1, 0x2100}, {2, 0x3100}, {1, 0x2200}};
     uint8_t *cbuf[2][CO_CSDO_N];
     bool armCb = false, cbFired = false; int cbType = 0; size_t cbMk = 0, cbMk2 = 0;   // reset requested by the application from inside CONmtHbConsEvent
@@ -28,11 +28,23 @@ struct ResetRun : NodeEnv {
         add_u8(v, 0x2100, 0, CO_OBJ_D___R_, 6); add_u8(v, 0x2100, 1, CO_OBJ____PRW, 1); add_u16(v, 0x2100, 2, CO_OBJ____PRW, 2); add_u32(v, 0x2100, 3, CO_OBJ____PRW, 3); add_u8(v, 0x2100, 4, CO_OBJ___APRW, 4); add_u16(v, 0x2100, 5, CO_OBJ____PRW, 5); add_u32(v, 0x2100, 6, CO_OBJ_____RW, 6);
         std::vector<uint8_t> dom(40); for (size_t i = 0; i < dom.size(); i++) dom[i] = (uint8_t)(i * 3 + 1); add_domain(v, 0x2200, 0, CO_OBJ_____RW, dom);
         add_string(v, 0x2201, 0, {'c', 'o', 's', 'i', 'm', '-', 'r', 'e', 's', 'e', 't'});
+        // 'para': the configuration of other services lives, by reference, inside parameter groups (1010h): a COM group with 1017h, 1005h, 1006h, 1014h and - where a second
+        // SDO server exists - its writable COB-IDs 1201h:1/2; a NODE group with two application values. A reset reloads them from NVM; every service must then work with what was loaded.
+        if (para) {
+            add_typed(v, T_PARASTORE, 0x1010, 0, CO_OBJ_D___R_, 2); add_typed(v, T_PARASTORE, 0x1010, 1, CO_OBJ_____RW, 0, 0); add_typed(v, T_PARASTORE, 0x1010, 2, CO_OBJ_____RW, 0, 1);
+            auto ref = [&](uint16_t idx, uint8_t sub, int g, uint32_t off, int flags = -1) { for (auto &o : v) if (o.idx == idx && o.sub == sub) { o.pgrp = g; o.poff = off; o.flags = (uint8_t)(flags >= 0 ? flags : (o.flags & ~CO_OBJ_D_____)); } };
+            ref(0x1017, 0, 0, 0); ref(0x1005, 0, 0, 4); ref(0x1006, 0, 0, 8); ref(0x1014, 0, 0, 12);
+            if (CO_SSDO_N > 1) { ref(0x1201, 1, 0, 16, CO_OBJ__N__RW); ref(0x1201, 2, 0, 20, CO_OBJ__N__RW); }
+            ref(0x2100, 6, 1, 0); ref(0x2100, 2, 1, 4);
+        }
     }
+    std::vector<ParaSpec> paraSpecs() { std::vector<ParaSpec> ps; if (para) { ParaSpec a; a.offset = 0; a.size = 24; a.type = CO_RESET_COM; ps.push_back(a); ParaSpec b; b.offset = 24; b.size = 8; b.type = CO_RESET_NODE; ps.push_back(b); } return ps; }
     void build() {
-        defId = 1; freq = 1000; dict(base);
+        defId = 1; freq = 1000; para = plan.c("para", 0) != 0; dict(base);
         NodeCfg cfg; cfg.nodeId = defId; cfg.freq = freq; cfg.tmrNum = 32;
-        w.build(0, cfg, base, {}, emcyTbl); w.init(0); w.start(0);
+        w.build(0, cfg, base, paraSpecs(), emcyTbl, para ? 32 : 0);
+        if (para) { for (size_t g = 0; g < w.s[0].paras.size(); g++) memcpy(&w.s[0].nvm[w.s[0].paras[g]->Offset], w.s[0].paraRam[g], w.s[0].paras[g]->Size); cov.hit("configuration-of-other-services-held-in-parameter-groups"); }   // NVM as programmed at production: the initial values
+        w.init(0); w.start(0);
         if (CONodeGetErr(w.N(0)) != CO_ERR_NONE) fail("setup/node-error", "node reports an error after initialisation");
         // application code inside CONmtHbConsEvent: a device that restarts its communication when its master's heartbeat is lost.
         // The reset runs inside COTmrProcess (timer callback -> CONmtHbConsMonitor -> CONmtHbConsEvent); node B is created at that very instant.
@@ -51,7 +63,8 @@ struct ResetRun : NodeEnv {
         NodeCfg cfg; cfg.nodeId = defId; cfg.freq = freq; cfg.tmrNum = 32;
         w.s[1].lssStored = w.s[0].lssStored; w.s[1].lssBaud = w.s[0].lssBaud; w.s[1].lssNode = w.s[0].lssNode;
         bool st = w.s[0].lssStored; uint32_t sb = w.s[0].lssBaud; uint8_t sn = w.s[0].lssNode;
-        w.build(1, cfg, v, {}, emcyTbl); w.s[1].lssStored = st; w.s[1].lssBaud = sb; w.s[1].lssNode = sn;
+        w.build(1, cfg, v, paraSpecs(), emcyTbl, para ? 32 : 0); w.s[1].lssStored = st; w.s[1].lssBaud = sb; w.s[1].lssNode = sn;
+        if (para) for (size_t g = 0; g < w.s[1].paras.size(); g++) memcpy(&w.s[1].nvm[w.s[1].paras[g]->Offset], w.s[1].paraRam[g], w.s[1].paras[g]->Size);   // B's non-volatile memory holds A's current values: its initialisation loads exactly them
         w.s[1].now = w.s[0].now; w.s[1].pdoReceiveRet = w.s[0].pdoReceiveRet;
         w.init(1); w.start(1);
         (void)CONodeGetErr(w.N(0)); (void)CONodeGetErr(w.N(1));
@@ -84,7 +97,7 @@ struct ResetRun : NodeEnv {
         else if (k == "sendfail") { w.s[sl].sendFail = (int)(o.arg(0) % 4); cov.hit("F5-can-send-failure"); }                                  // the next n frames are refused by the CAN driver
         else if (k == "isr") { int n = (int)(o.arg(0) % 400) + 1; for (int i = 0; i < n; i++) w.isr(sl); cov.hit("F13-ticks-served-not-processed"); }   // timer processing lags: elapsed events wait for COTmrProcess
         else if (k == "lag") { int n = (int)(o.arg(0) % 6) + 1; for (int i = 0; i < n; i++) w.isr(sl); w.process(sl); cov.hit("F13-deferred-processing"); }   // n ticks served, processed late in one go
-        else if (k == "frame") { Frame f((uint32_t)o.arg(0), (uint8_t)o.arg(1, 8), o.b); if (f.id == 0x600) f.id = 0x600u + n->NodeId; /* SDO requests follow the node id (LSS may have changed it) */ w.rx(sl, f); w.canproc(sl); cov.frames_in++; }
+        else if (k == "frame") { Frame f((uint32_t)o.arg(0), (uint8_t)o.arg(1, 8), o.b); if (f.id == 0x600) f.id = 0x600u + n->NodeId; /* SDO requests follow the node id (LSS may have changed it) */ if (f.id == 0x640 && para && CO_SSDO_N > 1) f.id = (w.raw(sl, 0x1201, 1) + n->NodeId) & 0x7FF; /* second server: the identifier 1201h:1 announces */ w.rx(sl, f); w.canproc(sl); cov.frames_in++; }
         else if (k == "emcy") { if (o.arg(0)) COEmcySet(&n->Emcy, (uint8_t)(o.arg(1) % 3), nullptr); else COEmcyClr(&n->Emcy, (uint8_t)(o.arg(1) % 3)); }
         else if (k == "trig") { if (o.arg(0) == 0) COTPdoTrigPdo(n->TPdo, (uint16_t)(o.arg(1) & 1)); else rc = (int)CODictWrByte(&n->Dict, CO_DEV(0x2100, 4), (uint8_t)o.arg(1)); }
         else if (k == "csdoreq") { CO_CSDO *cs = COCSdoFind(n, 0); if (!cs) return -99; uint32_t size = (uint32_t)o.arg(1) % 20 + 1; uint8_t *nb = (uint8_t *)malloc(size); memset(nb, 0x3C, size);
@@ -163,7 +176,7 @@ struct ResetRun : NodeEnv {
 
 static Op sdoWr(uint16_t idx, uint8_t sub, uint32_t val, int width) { return Op("frame", {0x600, 8}, {(uint8_t)(0x23 | (4 - width) << 2), (uint8_t)idx, (uint8_t)(idx >> 8), sub, (uint8_t)val, (uint8_t)(val >> 8), (uint8_t)(val >> 16), (uint8_t)(val >> 24)}); }
 static Op sdoRd(uint16_t idx, uint8_t sub) { return Op("frame", {0x600, 8}, {0x40, (uint8_t)idx, (uint8_t)(idx >> 8), sub, 0, 0, 0, 0}); }
-static void gen_traffic(Rng &r, std::vector<Op> &ops, bool probe) {
+static void gen_traffic(Rng &r, std::vector<Op> &ops, bool probe, bool para = false) {
     int c = (int)r.below(40);
     if (c < 6) ops.push_back(Op("tick", {r.chance(1, 8) ? r.pick<int64_t>({50, 100, 255}) : r.range(1, 12)}));
     else if (c < 8) ops.push_back(Op("nmt_placeholder"));
@@ -193,12 +206,17 @@ static void gen_traffic(Rng &r, std::vector<Op> &ops, bool probe) {
     else if (c == 37) { if (!probe) ops.push_back(Op("apptmr", {(int64_t)r.chance(2, 3), (int64_t)r.below(30), (int64_t)r.below(30)})); else ops.push_back(Op("read")); }
     else if (c == 38) ops.push_back(Op("frame", {0x589, 8}, {r.pick<uint8_t>({0x60, 0x43, 0x80, 0x41, 0x00}), 0x00, 0x20, 1, 1, 2, 3, 4}));     // answer of the remote SDO server
     else ops.push_back(r.chance(1, 2) ? Op("read") : r.chance(1, 2) ? Op("sendfail", {r.range(1, 3)}) : Op("lag", {(int64_t)r.below(6)}));
+    if (para && r.chance(1, 6)) { int c2 = (int)r.below(6);
+        if (c2 == 0) ops.push_back(Op("frame", {0x600, 8}, {0x23, 0x10, 0x10, (uint8_t)r.range(1, 2), 0x73, 0x61, 0x76, 0x65}));                       // 'save'
+        else if (c2 == 1) { uint32_t nid = r.pick<uint32_t>({0x640, 0x650, 0x660}); ops.push_back(sdoWr(0x1201, 1, 0x80000000u | 0x641, 4)); ops.push_back(sdoWr(0x1201, 1, nid + 1, 4)); }   // second server moved to another request identifier
+        else if (c2 == 2) { uint32_t nid = r.pick<uint32_t>({0x5C0, 0x5D0}); ops.push_back(sdoWr(0x1201, 2, 0x80000000u | 0x5C1, 4)); ops.push_back(sdoWr(0x1201, 2, nid + 1, 4)); }
+        else ops.push_back(Op("frame", {0x640, 8}, {0x40, r.pick<uint8_t>({0x00, 0x17, 0x01}), r.pick<uint8_t>({0x10, 0x12, 0x21}), (uint8_t)r.below(3), 0, 0, 0, 0})); }       // request to the second server on the identifier it announces
     if (!ops.empty() && ops.back().k == "nmt_placeholder") { ops.pop_back(); ops.push_back(Op("frame", {0, 2}, {r.pick<uint8_t>({1, 1, 1, 2, 128}), 0})); }
 }
 Plan gen_reset(Rng &r, bool thorough) {
-    Plan p; p.cfg["syncprod"] = r.below(2); p.cfg["synccycle"] = r.pick<int64_t>({2000, 5000, 10000}); p.cfg["cons0"] = r.pick<int64_t>({0, 10, 20}); p.cfg["cons1"] = r.pick<int64_t>({0, 15}); p.cfg["hb"] = r.pick<int64_t>({0, 5, 10}); p.cfg["inh0"] = r.pick<int64_t>({0, 30, 100}); p.cfg["ev0"] = r.pick<int64_t>({0, 7, 20});
+    Plan p; bool para = r.chance(1, 4); p.cfg["para"] = para; p.cfg["syncprod"] = r.below(2); p.cfg["synccycle"] = r.pick<int64_t>({2000, 5000, 10000}); p.cfg["cons0"] = r.pick<int64_t>({0, 10, 20}); p.cfg["cons1"] = r.pick<int64_t>({0, 15}); p.cfg["hb"] = r.pick<int64_t>({0, 5, 10}); p.cfg["inh0"] = r.pick<int64_t>({0, 30, 100}); p.cfg["ev0"] = r.pick<int64_t>({0, 7, 20});
     if (r.chance(4, 5)) p.ops.push_back(Op("frame", {0, 2}, {1, 0}));
-    int h = (int)r.range(0, thorough ? 60 : 30); for (int i = 0; i < h; i++) gen_traffic(r, p.ops, false);
+    int h = (int)r.range(0, thorough ? 60 : 30); for (int i = 0; i < h; i++) gen_traffic(r, p.ops, false, para);
     if (r.chance(1, 3)) p.ops.push_back(Op("isr", {r.chance(1, 2) ? r.range(0, 10) : r.range(50, 399)}));   // the reset request meets timers that have elapsed but were not processed yet
     if (r.chance(1, 5)) {   // the application resets the node from inside CONmtHbConsEvent (heartbeat of a monitored node lost)
         if (r.chance(3, 4)) p.ops.push_back(sdoWr(0x1016, (uint8_t)r.range(1, 2), (uint32_t)r.pick<uint32_t>({20, 21}) << 16 | r.pick<uint32_t>({5, 10, 30}), 4));
@@ -206,7 +224,7 @@ Plan gen_reset(Rng &r, bool thorough) {
         p.ops.push_back(Op("cbreset", {(int64_t)r.chance(1, 4), r.range(10, 79), r.chance(1, 3) ? r.range(1, 3) : 0}));
     }
     p.ops.push_back(Op("reset", {(int64_t)r.chance(1, 4)}));
-    int q = (int)r.range(3, thorough ? 50 : 25); for (int i = 0; i < q; i++) { if (i == 1 && r.chance(2, 3)) p.ops.push_back(Op("frame", {0, 2}, {1, 0})); gen_traffic(r, p.ops, true); }
+    int q = (int)r.range(3, thorough ? 50 : 25); for (int i = 0; i < q; i++) { if (i == 1 && r.chance(2, 3)) p.ops.push_back(Op("frame", {0, 2}, {1, 0})); gen_traffic(r, p.ops, true, para); }
     p.ops.push_back(Op("tick", {120}));
     return p;
 }
